@@ -22,7 +22,7 @@ class C06(Check):
     ASSUMPTIONS = ['reference layout transcribed from the docstrings of sdss_objid / sdss_specobjid',
                    'out-of-range components inside a vN_M_P string are not asserted to raise (DESIGN C06 D)']
     QUICK_SHARDS = 4
-    REQUIRED_COUNTERS = ('repeat_calls_same_objects', 'rejections_observed', 'length_mismatch_one', 'length_mismatch_plus1', 'length_mismatch_minus1')
+    REQUIRED_COUNTERS = ('run2d_mixed_form_string_arrays', 'repeat_calls_same_objects', 'rejections_observed', 'length_mismatch_one', 'length_mismatch_plus1', 'length_mismatch_minus1')
 
     def setup(self):
         import pydl.pydlutils.sdss as S
@@ -79,7 +79,7 @@ class C06(Check):
         if cls in ('spec_random', 'spec_scalar'):
             n = 1 if cls == 'spec_scalar' else rng.randint(1, 40)
             vals = {f: [self._pick(rng, *R.SPEC_RANGE[f]) for _ in range(n)] for f in SPEC_FIELDS}
-            run2d_form = rng.choice(['int', 'str', 'intstr'])
+            run2d_form = rng.choice(['int', 'str', 'intstr', 'mixstr'] if cls == 'spec_random' else ['int', 'str', 'intstr'])
             lineform = rng.choice(['none', 'line', 'index'])
             if lineform == 'none':
                 vals['line'] = [0] * n
@@ -272,6 +272,10 @@ class C06(Check):
                 return s[0] if conv != 'array' else np.array(s)
             if f == 'run2d' and run2d_form == 'intstr' and conv != 'array':
                 return str(v[0])
+            if f == 'run2d' and run2d_form in ('intstr', 'mixstr') and conv == 'array':
+                # a string array in the integer form throughout, or mixing both forms element by element
+                s = [str(x) if (run2d_form == 'intstr' or (i + x) % 2) else self._run2d_str(x) for i, x in enumerate(v)]
+                return np.array(s)
             if conv == 'pyint':
                 return int(v[0])
             if conv == 'npscalar':
@@ -362,6 +366,7 @@ class C06(Check):
         if exp is not None:
             self._check_unwrap_spec(out, np.asarray(res), vals, n, 'random', specLineIndex=case['lineform'] == 'index')
         out.count('run2d_string_arrays', case['run2d_form'] == 'str')
+        out.count('run2d_mixed_form_string_arrays', case['run2d_form'] == 'mixstr' and n >= 2)
         out.nontrivial = any(vals[f][k] >= (R.SPEC_RANGE[f][1] + R.SPEC_RANGE[f][0] + 1) // 2
                              for f in SPEC_FIELDS for k in range(n))
 
